@@ -149,3 +149,51 @@ emit_function = Contract(
 )
 emit_function.opaque = _FN_OPAQUE
 CONTRACTS.append(emit_function)
+
+# ------------------------------------------------------------------------------------------- emit.docstring (C01: the layout around the per-parameter lines)
+def _ds_ir(n, returns):
+    d = {"name": "str", "doc": "str", "params": ("dict", {"p%d" % i: ("dict", {"typ": "str", "doc": "str"}) for i in range(n)})}
+    d["returns"] = ("dict", {"return_type": ("dict", {"typ": "str", "doc": "str"})}) if returns else None
+    return ("dict", d)
+
+
+_DS_CASES = [Case("%s,params=%d,%s" % (style, n, "returns" if r else "no-returns"),
+                  {"intermediate_repr": _ds_ir(n, r), "docstring_format": ("lit", style), "word_wrap": False, "emit_default_doc": True})
+             for style in ("rest", "numpydoc", "google") for n in (0, 2) for r in (True, False)]
+_E = "log_emit_param_str_results"
+_DOC = "old_intermediate_repr['doc']"
+
+
+def _ds_expected(style, n, r):
+    """the layout, as an expression over the prose and the rendered entries (derived from the format string of emit.docstring)"""
+    entries = ["%s[%d]" % (_E, i) for i in range(n)]
+    ret = "%s[%d]" % (_E, n)
+    if style == "rest":
+        params = " + '\\n\\n' + ".join(entries) if entries else "''"
+        returns = ("'\\n' + %s" % ret) if r else "''"
+        return "'\\n' + %s + '\\n\\n' + %s + '\\n' + %s + '\\n'" % (_DOC, params, returns)
+    header = {"numpydoc": "Parameters\\n----------", "google": "Args:"}[style]
+    rhead = {"numpydoc": "Returns\\n-------", "google": "Returns:"}[style]
+    params = ("'%s' + '\\n' + " % header + " + '\\n' + ".join(entries)) if entries else "''"
+    returns = ("'\\n%s' + '\\n' + %s" % (rhead, ret)) if r else "''"
+    tail = "'\\n'" if style == "numpydoc" else "''"
+    return "'\\n' + %s + '\\n\\n' + '\\n' + %s + '\\n' + %s + '\\n' + %s" % (_DOC, params, returns, tail)
+
+
+emit_docstring = Contract(
+    "doctrans.emit:docstring",
+    properties=["C01", "C13"],
+    note="no word wrap; emit_param_str is opaque (its own contract pins each entry): this contract pins the LAYOUT - summary, section headers of the style, "
+         "one entry per parameter in order, the return entry last - and the frame",
+    cases=_DS_CASES,
+    ensures=[Clause("DS-layout[%s]" % c.name, "result == " + _ds_expected(c.name.split(",")[0], int(c.name.split("=")[1][0]), c.name.endswith(",returns")), when=[c.name],
+                    note="C01: summary, then every parameter's entry once and in order under the style's header, then the return entry under its header")
+             for c in _DS_CASES]
+    + [Clause("DS-entries", "log_emit_param_str_n == len(old_intermediate_repr['params']) + (1 if old_intermediate_repr['returns'] is not None else 0) and "
+                            "all(log_emit_param_str_args[i][0][0] == list(old_intermediate_repr['params'].keys())[i] for i in range(len(old_intermediate_repr['params'])))",
+              note="each parameter is rendered exactly once, in the description's order; the return entry once, last"),
+       Clause("DS-frame", "unchanged(intermediate_repr, old_intermediate_repr)", note="C13: the caller's description is not modified")],
+    canaries=["result == ''"],
+)
+emit_docstring.opaque = {"emit_param_str": {"ret": "str"}}
+CONTRACTS.append(emit_docstring)
